@@ -76,6 +76,17 @@ part of it. -/
 def endToEnd (listed : List String) (l : List (String × String)) : List (String × String) :=
   l.filter fun kv => !(hopNames ++ forwardingNames ++ framingNames ++ listed).contains kv.1
 
+/-! ### what a piece of an escaped path stands for -/
+
+/-- the number of bytes a piece of an escaped path stands for, counted the way `escapedLen` counts: a `%` stands for
+one byte together with the (up to) two bytes behind it. The reference for the cut that goes with a strip option
+(`c07.esclen` evaluates it on the real function's result; `Lemmas.C07.dropEscaped_count`: the model satisfies it). -/
+def decodedCount : Bytes → Nat
+  | [] => 0
+  | c :: s => if c = PCT then 1 + decodedCount (s.drop 2) else 1 + decodedCount s
+termination_by s => s.length
+decreasing_by all_goals simp_wf <;> omega
+
 /-! ### "the client accepts gzip"
 
 The second sentence lets fabio change the bytes of a reply in one way only: the gzip coding of C17, and that only
